@@ -343,6 +343,23 @@ def edits(t: ast.AST, rng) -> List[tuple]:
                 def drop(m):
                     m.args.pop()
                 out.append(("drop-arg", edited(i, drop)))
+            kws = getattr(n, "keywords", None) or []
+            if len(kws) >= 2 and skey(kws[0]) != skey(kws[1]):
+                # the written order of keyword arguments is structure (the dump lists them in order)
+                def swk(m):
+                    m.keywords[0], m.keywords[1] = m.keywords[1], m.keywords[0]
+                out.append(("swap-keywords", edited(i, swk)))
+        elif isinstance(n, (ast.Tuple, ast.List, ast.Set)) and len(getattr(n, "elts", None) or []) >= 2 \
+                and skey(n.elts[0]) != skey(n.elts[1]):
+            def swe(m):
+                m.elts[0], m.elts[1] = m.elts[1], m.elts[0]
+            out.append(("swap-elements", edited(i, swe)))
+        elif isinstance(n, ast.Dict) and len(getattr(n, "keys", None) or []) >= 2 and len(n.keys) == len(getattr(n, "values", []) or []):
+            def swd(m):
+                m.keys[0], m.keys[1] = m.keys[1], m.keys[0]
+                m.values[0], m.values[1] = m.values[1], m.values[0]
+            if skey(n.keys[0]) != skey(n.keys[1]) or skey(n.values[0]) != skey(n.values[1]):
+                out.append(("swap-entries", edited(i, swd)))
     res = []
     for k, c in out:
         if c is None:
